@@ -93,6 +93,29 @@ META.update({
  "C20c-3": ("C20", "the chunk iterator returns a placeholder-tree empty iterator for an empty query", "empty query, then tree() on the decoder"),
 })
 
+META.update({
+ "C01d-1": ("C01", "sync DecodeResponseIter::next retries when next0 reports Interrupted / TimedOut (the plan iterator has already advanced)", "a reader reporting a transient TimedOut at the read of a non-root parent directly followed by another parent"),
+ "C01d-2": ("C01", "sync decode_ranges writes one zero byte at size-1 before decoding", "target whose last byte is not 0 and a query that excludes the last chunk group (second step of a history)"),
+ "C02d-1": ("C02", "io-backed outboards' save returns InvalidInput for a node without a slot", "sync decode_ranges into an io-backed outboard, block size >= 1, query selecting part of a chunk group"),
+ "C02d-2": ("C02", "fsm decoder replaces a canonicalised query lying entirely behind the blob by the empty query", "async decoder and a non-empty query at / behind the chunk count (ChunkNum(u64::MAX)..)"),
+ "C03d-1": ("C03", "sync::outboard wraps its reader in a BufReader (reads past tree.size from the caller's stream)", "two creations from one stream holding blobs back to back"),
+ "C03d-2": ("C03", "outboard_post_order wraps its writer in a BufWriter without an explicit flush (flush errors lost in Drop)", "a write fault within the last 8 KiB of the outboard"),
+ "C04d-1": ("C04", "sync validating encoder canonicalises only closed queries", "open-ended query with >= 3 boundaries whose open tail starts behind the end, block size >= 1, fully selected last group of >= 2 chunks"),
+ "C04d-2": ("C04", "fsm validating encoder reads chunk_group_bytes per leaf and accepts any length >= size", "data source longer than the blob, selection touching a short last leaf"),
+ "C05d-1": ("C05", "fsm validating encoder delegates to the non-validating one when the outboard is empty and the query is all", "async encoder, blob of at most one chunk group, corrupt data byte"),
+ "C05d-2": ("C05", "item-stream traversal sends Done after Error", "experimental-mixed, any error path, observer of the last item"),
+ "C06d-1": ("C06", "outboard validators drop the relevance test and report the range when load answers None", "an outboard answering Ok(None) at stored nodes (EmptyOutboard, node-keyed stores)"),
+ "C06d-2": ("C06", "validators split the query at tree.chunks() instead of canonicalising it", "query with a part at / behind the end that does not otherwise cover the last chunk"),
+ "C07d-1": ("C07", "sync data validator checks the right group of a bottom pair only if the left one was valid", "right sibling group delivered before the left"),
+ "C07d-2": ("C07", "pre_order_offset shifts the node without the level check (sub-group parents map to an ancestor's slot)", "block size >= 1, sub-group query decoded into an io-backed pre-order outboard"),
+ "C08d-1": ("C08", "sync decoder grows but never shrinks the leaf buffer and reads the whole buffer", "new_with_buffer with a non-empty buffer, first leaf shorter than it"),
+ "C08d-2": ("C08", "sync non-validating encoder rejects a data source whose size differs from the tree size (SizeMismatch)", "data file shorter or longer than the blob with the requested ranges present"),
+ "C09d-1": ("C09", "fsm decode_ranges coalesces adjacent leaves and drops the pending buffer on error", "async decode_ranges, fault after at least one validated leaf, target inspected after the error"),
+ "C09d-2": ("C09", "From<DecodeError> for io::Error maps ParentNotFound to ErrorKind::NotFound", "stream cut in or right before a hash pair, error converted to io::Error"),
+ "C10d-1": ("C10", "sync outboard validator awaits both child recursions before propagating an error", "sync valid_outboard_ranges, >= 3 blocks, failing load in a left subtree"),
+ "C10d-2": ("C10", "fsm validating encoder writes a partially selected group without the leaf-write error mapping", "async validating encoder, block size > 0, sub-group query, ConnectionReset on that write"),
+})
+
 for sid, (prop, what, needs) in META.items():
     d = f"/verif/seeded/{sid}"
     if not os.path.isdir(d):
